@@ -5,8 +5,10 @@ import (
 	"encoding/json"
 	"fmt"
 	"math/rand"
+	"net/url"
 	"os"
 	"path/filepath"
+	"regexp"
 	"strings"
 	"sync"
 	"time"
@@ -60,6 +62,8 @@ type CRecord struct {
 	BodySum    string        `json:"body_sum,omitempty"`
 	BodyLen    int           `json:"body_len"`
 	ReqCT      string        `json:"req_ct,omitempty"`
+	ReqMethod  string        `json:"req_method,omitempty"`
+	ReqPath    string        `json:"req_path,omitempty"`
 	T          *TypedRec     `json:"typed,omitempty"`
 }
 
@@ -422,6 +426,7 @@ func (e *Engine) checkCorpus(c *core.Ctx, id string) ([]core.Violation, map[stri
 			aloneBy[[2]int{a.Task, a.Op}] = a
 			if id == "C15" {
 				ps = append(ps, corpusC15(a, stub[scs[i].Pkg])...)
+				ps = append(ps, routingRule(a, e.matchers(scs[i].Pkg), scs[i].Pkg)...)
 			}
 		}
 		for _, cr := range r.Conc {
@@ -438,6 +443,7 @@ func (e *Engine) checkCorpus(c *core.Ctx, id string) ([]core.Violation, map[stri
 			}
 			if id == "C15" {
 				ps = append(ps, corpusC15(cr, stub[scs[i].Pkg])...)
+				ps = append(ps, routingRule(cr, e.matchers(scs[i].Pkg), scs[i].Pkg)...)
 			} else {
 				ps = append(ps, corpusC19(aloneBy[[2]int{cr.Task, cr.Op}], cr)...)
 			}
@@ -513,6 +519,7 @@ func (e *Engine) replayCorpus(c *core.Ctx, id string, raw json.RawMessage, race 
 					ps = append(ps, typedDeliver(cr, pkg, deliver[pkg])...)
 				case "C15":
 					ps = append(ps, typedC15(cr, pkg)...)
+					ps = append(ps, routingRule(cr, e.matchers(pkg), pkg)...)
 				case "C19":
 					if pi == 1 {
 						ps = append(ps, typedC19(aloneBy[[2]int{cr.Task, cr.Op}], cr, pkg)...)
@@ -535,11 +542,13 @@ func (e *Engine) replayCorpus(c *core.Ctx, id string, raw json.RawMessage, race 
 		aloneBy[[2]int{a.Task, a.Op}] = a
 		if id == "C15" {
 			ps = append(ps, corpusC15(a, stubOf(e, rs.Scenario.Pkg))...)
+			ps = append(ps, routingRule(a, e.matchers(rs.Scenario.Pkg), rs.Scenario.Pkg)...)
 		}
 	}
 	for _, cr := range r.Conc {
 		if id == "C15" {
 			ps = append(ps, corpusC15(cr, stubOf(e, rs.Scenario.Pkg))...)
+			ps = append(ps, routingRule(cr, e.matchers(rs.Scenario.Pkg), rs.Scenario.Pkg)...)
 		} else {
 			ps = append(ps, corpusC19(aloneBy[[2]int{cr.Task, cr.Op}], cr)...)
 		}
@@ -560,4 +569,125 @@ func stubOf(e *Engine, pkg string) bool {
 		}
 	}
 	return false
+}
+
+// ---- which operation a request line designates (independent of ogen's router)
+
+type routeMatcher struct {
+	route Route
+	segs  []*regexp.Regexp
+}
+
+var tmplParam = regexp.MustCompile(`\{[^{}]*\}`)
+
+func newRouteMatchers(routes []Route) []routeMatcher {
+	var out []routeMatcher
+	for _, rt := range routes {
+		if !strings.HasPrefix(rt.Path, "/") {
+			continue
+		}
+		m := routeMatcher{route: rt}
+		for _, seg := range strings.Split(rt.Path[1:], "/") {
+			var sb strings.Builder
+			sb.WriteString("^")
+			last := 0
+			for _, loc := range tmplParam.FindAllStringIndex(seg, -1) {
+				sb.WriteString(regexp.QuoteMeta(seg[last:loc[0]]))
+				sb.WriteString("(?s:.+)")
+				last = loc[1]
+			}
+			sb.WriteString(regexp.QuoteMeta(seg[last:]))
+			sb.WriteString("$")
+			m.segs = append(m.segs, regexp.MustCompile(sb.String()))
+		}
+		out = append(out, m)
+	}
+	return out
+}
+
+// designated lists the routes whose template the escaped path instantiates: segments are what lies between
+// literal slashes, compared after percent-decoding; every parameter stands for a non-empty text.
+func designated(ms []routeMatcher, rawPath string) []Route {
+	if !strings.HasPrefix(rawPath, "/") {
+		return nil
+	}
+	raw := strings.Split(rawPath[1:], "/")
+	segs := make([]string, len(raw))
+	for i, s := range raw {
+		d, err := url.PathUnescape(s)
+		if err != nil {
+			return nil
+		}
+		segs[i] = d
+	}
+	var out []Route
+	for _, m := range ms {
+		if len(m.segs) != len(segs) {
+			continue
+		}
+		ok := true
+		for i, re := range m.segs {
+			if !re.MatchString(segs[i]) {
+				ok = false
+				break
+			}
+		}
+		if ok {
+			out = append(out, m.route)
+		}
+	}
+	return out
+}
+
+// routingRule: a request reaches only an operation its request line designates; a path that designates none is
+// answered 404, one whose operations do not take the method 405 - without reaching any handler.
+func routingRule(r *CRecord, ms []routeMatcher, pkg string) []problem {
+	if r.ReqPath == "" || strings.HasPrefix(r.Call.TOp, "~") || len(ms) == 0 {
+		return nil
+	}
+	k := ""
+	if r.Call.Fault != nil {
+		k = r.Call.Fault.Kind
+	}
+	if k == "flip" {
+		return nil // the request line itself may have been altered on the wire
+	}
+	var out []problem
+	rts := designated(ms, r.ReqPath)
+	var forMethod []string
+	for _, rt := range rts {
+		if rt.Method == r.ReqMethod {
+			forMethod = append(forMethod, rt.Op)
+		}
+	}
+	add := func(oracle, what string) {
+		out = append(out, problem{oracle, fmt.Sprintf("call t%d.o%d %s %s (fault %+v): %s", r.Task, r.Op, r.ReqMethod, clip(r.ReqPath, 120), r.Call.Fault, what), keyOf("routing/" + oracle + "/" + pkg)})
+	}
+	for i, s := range r.Sides {
+		if !s.Delivered || s.Panic != "" || !s.Returned || s.WriteErrs > 0 {
+			continue
+		}
+		switch {
+		case len(rts) == 0:
+			if s.MiddlewareOps != 0 || s.HandlerCalls != 0 || s.Status != 404 {
+				add("a path that designates no operation is answered 404 and reaches no handler", fmt.Sprintf("delivery %d: status %d, middleware saw %q", i, s.Status, s.MiddlewareSaw))
+			}
+		case len(forMethod) == 0:
+			preflight := r.ReqMethod == "OPTIONS" && s.Status == 204
+			if s.MiddlewareOps != 0 || s.HandlerCalls != 0 || (s.Status != 405 && !preflight) {
+				add("a path whose operations do not take the method is answered 405 and reaches no handler", fmt.Sprintf("delivery %d: status %d, middleware saw %q", i, s.Status, s.MiddlewareSaw))
+			}
+		case s.MiddlewareOps > 0:
+			ok := false
+			for _, op := range forMethod {
+				if s.MiddlewareSaw == op {
+					ok = true
+				}
+			}
+			if !ok {
+				add("a request reaches only an operation its request line designates", fmt.Sprintf("delivery %d: designates %v, middleware saw %q", i, forMethod, s.MiddlewareSaw))
+			}
+		}
+	}
+	return out
 }
